@@ -52,7 +52,20 @@ META = dict(
     level_note="trusted: nsf.neutron_sld on an explicit atom dictionary (C03) as the reference route; numpy",
 )
 
-MATERIALS = ("H2O", "D2O", "SiO2", "B4C", "Gd2O3", "Sm[149]O", "Lu[176]", "V", "Ti", "Au")
+MATERIALS = ("H2O", "D2O", "SiO2", "B4C", "Gd2O3", "Sm[149]O", "Lu[176]", "V", "Ti", "Au",
+             # two DIFFERENT materials that print the same (a named formula prints its name): anything keyed on
+             # str(material) confuses them
+             "C15H31 name=tail", "C15D31 name=tail")
+
+
+def material_formula(formula, spec):
+    text, _, name = spec.partition(" name=")
+    return formula(text, name=name) if name else formula(text)
+
+
+def material_code(spec):
+    text, _, name = spec.partition(" name=")
+    return "formula(%r, name=%r)" % (text, name) if name else "formula(%r)" % text
 WEIGHTS = (0, 0.5, 1, 3)
 DENSITIES = (0, 1, 2.5)
 REL = 1e-9
@@ -102,7 +115,7 @@ class Env(object):
         from periodictable import nsf, formula, constants
         self.nsf = nsf
         self.NA = constants.avogadro_number
-        self.F = [formula(s) for s in MATERIALS]
+        self.F = [material_formula(formula, s) for s in MATERIALS]
         self.atoms = [list(f.atoms.items()) for f in self.F]
         self.default_wavelength = nsf.ABSORPTION_WAVELENGTH
 
@@ -137,7 +150,7 @@ def _snippet(E, mats, weights, density, form):
                 atoms[a] = atoms.get(a, 0) + w * q
     ad = "{%s}" % ", ".join("%s: %r" % (E.pyname(a), float(c)) for a, c in atoms.items())
     lines = ["import numpy as np", "import periodictable as pt", "from periodictable import formula, nsf",
-             "materials = [formula(s) for s in %r]" % ([MATERIALS[i] for i in mats],),
+             "materials = [%s]" % ", ".join(material_code(MATERIALS[i]) for i in mats),
              "calc = nsf.neutron_composite_sld(materials%s)" % ("" if wl is None else ", wavelength=%s" % wl),
              "print(calc(np.array(%r), density=%r))" % ([float(w) for w in weights], density),
              "print(nsf.neutron_sld(%s, density=%r%s))" % (ad, density, "" if wl is None else ", wavelength=%s" % wl)]
